@@ -47,7 +47,7 @@ func mustJSON(v any) string {
 
 var alphabet = []byte("ab/:.-")
 
-var uniPkgs = []string{"", "a", "b", "ab", "a/b", "a/b/c", "a.b", "a-b", "b/a", "a/bb", "aa"}
+var uniPkgs = []string{"", "a", "b", "ab", "a/b", "a/b/c", "a.b", "a-b", "b/a", "a/bb", "aa", "ab/c", "aa/b", "a.b/c", "b/ab", "ab/a", "a/b/a"}
 var uniNames = []string{"a", "b", "all", "a.b", "ab", "c", "x-test", "-", "bb"}
 
 func universe() []label.TargetLabel {
@@ -218,6 +218,29 @@ func TestLabels(t *testing.T) {
 			sb.WriteString(frags[r.intn(len(frags))])
 		}
 		checkString(sb.String(), curs, u, &res)
+	}
+	// every documented pattern form over the universe's packages and names
+	for _, p := range uniPkgs {
+		for _, n := range append([]string{"all", "...", ""}, uniNames...) {
+			var forms []string
+			pre := "//" + p
+			if n == "" {
+				forms = []string{pre, pre + "/...", "//..."}
+				if p == "" {
+					forms = []string{"//..."}
+				}
+			} else {
+				forms = []string{pre + ":" + n, ":" + n}
+				if p == "" {
+					forms = append(forms, "//...:"+n)
+				} else {
+					forms = append(forms, pre+"/...:"+n)
+				}
+			}
+			for _, f := range forms {
+				checkString(f, curs, u, &res)
+			}
+		}
 	}
 	keys := make([]string, 0, len(res.Violations))
 	for k := range res.Violations {
